@@ -24,10 +24,23 @@ func main() {
 	for v, proto := range []int{2, 4, 2, 3, 2, 1} {
 		hs = append(hs, c01lib.CoalCancelHist(len(hs), proto, v))
 	}
+	// a response body interrupted by 1..4 temporary read errors (fewer than Conn.Read's retries) at every cut
+	// class, with the other callers' responses following on the wire
+	for nerr := 1; nerr <= 4; nerr++ {
+		for cut := 0; cut < 3; cut++ {
+			k := len(hs)
+			hs = append(hs, c01lib.TempErrHist(k, []int{4, 2, 3, 1, 5}[k%5], nerr, cut, (nerr+cut)%4, 5))
+		}
+	}
 	for i := len(hs); i < n; i++ {
 		hs = append(hs, c01lib.Gen(o.Rng, i, c01lib.Routing))
 	}
 	reps := c01lib.RunAll(hs, 6, 5)
+	// the deprecated TimeoutLimit knob: more than TimeoutLimit timeouts close the connection from inside exec
+	for _, limit := range []int{1, 2} {
+		g := []*c01lib.Hist{c01lib.TimeoutLimitHist(len(reps), 4, limit, limit+2, 0)}
+		reps = append(reps, c01lib.RunAllLimit(g, 6, 5, int64(limit))...)
+	}
 	c01lib.Emit(o, reps)
 	o.Finish("From GocqlV Require Import Lib.Base C01.Corr.", "C01.Corr.case", "C01.Corr.run")
 }
